@@ -1,15 +1,17 @@
 import Driver.Proto
-import Dawgs.Model.C12
+import Dawgs.Model.C12Heap
 /-! Model driver for C12 (suite `c12`): same line protocol as harness/c12.go, answers
 `<ret> | <dump of entity 0> | <dump of entity 1>`.  The model runs the merges of the code as it is; `mode old` (alias
 `mode current`, the name used before the fix was committed) switches the rest of the case to the merges before commit
-179da67 — only old replay files use it; `mode fixed` switches back. -/
+179da67 — only old replay files use it; `mode fixed` switches back.  Properties run in the list model (`St`); the kind
+slices run in the heap model (`HSt`, Model/C12Heap.lean: backing arrays, `Is` vs `==`), which is what the dump shows. -/
 namespace Driver.C12
 open Dawgs.C12
 
 structure DSt where
   old : Bool := false
   st : Option St := none
+  hs : HSt := HSt.init [] false false
 
 /-! #### tokens -/
 
@@ -19,9 +21,12 @@ def letterCode (base : Char) (s : String) : Option Nat :=
   | _ => none
 
 def keyOf (s : String) : Option Nat := letterCode 'a' s
-def kindOf (s : String) : Option Nat := letterCode 'A' s
+/-- `A` is the canonical kind of name 0; `A!` a foreign Kind implementation with the same name (code 100) -/
+def kindOf (s : String) : Option Nat :=
+  if s.endsWith "!" then (letterCode 'A' (s.dropRight 1)).map (· + 100) else letterCode 'A' s
 def keyStr (k : Nat) : String := String.singleton (Char.ofNat ('a'.toNat + k))
-def kindStr (k : Nat) : String := String.singleton (Char.ofNat ('A'.toNat + k))
+def kindStr (k : Nat) : String :=
+  String.singleton (Char.ofNat ('A'.toNat + k % 100)) ++ (if k ≥ 100 then "!" else "")
 
 def valOf (s : String) : Option Nat :=
   match s.toNat? with
@@ -65,20 +70,25 @@ def setStr (s : Option (List Nat)) : String :=
 
 def kindsStr (l : List Nat) : String := commaOr "-" (l.map kindStr)
 
-def dumpEnt (e : Ent) : String :=
+def dumpEnt (e : Ent) (ks : List Nat × List Nat × List Nat) : String :=
   let p := e.props
   s!"M={mapStr p.map} mod={setStr p.modified} del={setStr p.deleted} mp={mapStr (some p.modifiedProperties)} " ++
-  s!"dp={setStr p.deletedProperties} K={kindsStr e.kinds} add={kindsStr e.added} rem={kindsStr e.removed}"
+  s!"dp={setStr p.deletedProperties} K={kindsStr ks.1} add={kindsStr ks.2.1} rem={kindsStr ks.2.2}"
 
-def withDump (st : St) (ret : String) : String := s!"{ret} | {dumpEnt st.e0} | {dumpEnt st.e1}"
+def heldStr (hs : HSt) : String :=
+  if hs.held.isEmpty then "" else " | H=" ++ ";".intercalate (hs.held.map (fun s => kindsStr (s.read hs.heap)))
+
+def withDump (st : St) (hs : HSt) (ret : String) : String :=
+  s!"{ret} | {dumpEnt st.e0 (hs.kindsOf false)} | {dumpEnt st.e1 (hs.kindsOf true)}{heldStr hs}"
 
 /-! #### one line -/
 
 def apply (d : DSt) (st : St) (o : Op) : DSt × String :=
   let st' := st.step d.old o
-  ({ d with st := some st' }, withDump st' "ok")
+  let hs' := d.hs.step d.old o
+  ({ d with st := some st', hs := hs' }, withDump st' hs' "ok")
 
-def readOut (d : DSt) (st : St) (r : String) : DSt × String := (d, withDump st r)
+def readOut (d : DSt) (st : St) (r : String) : DSt × String := (d, withDump st d.hs r)
 
 def bad (d : DSt) : DSt × String := (d, "bad-op")
 
@@ -115,10 +125,22 @@ def stepLoaded (d : DSt) (st : St) (ts : List String) : DSt × String :=
   | ["drv", e] => match entOf e with
       | some e =>
         let x := st.get e
-        readOut d st s!"u kinds={kindsStr x.kinds} dkinds={kindsStr x.removed} props={mapStr (some x.props.m)} dprops={setStr (some x.props.del)}"
+        let ks := d.hs.kindsOf e
+        readOut d st s!"u kinds={kindsStr ks.1} dkinds={kindsStr ks.2.2} props={mapStr (some x.props.m)} dprops={setStr (some x.props.del)}"
       | none => bad d
   | ["rmerge", e, f] => match entOf e, entOf f with
       | some e, some f => apply d st (.rmerge e f)
+      | _, _ => bad d
+  | ["hold", e] => match entOf e with
+      | some e =>
+        let hs' := d.hs.hold e
+        ({ d with hs := hs' }, withDump st hs' "ok")
+      | none => bad d
+  | ["json", e] => match entOf e with
+      | some e => apply d st (.json e)
+      | none => bad d
+  | ["strip", e, ks] => match entOf e, (if ks = "-" then some [] else (ks.splitOn ",").mapM keyOf) with
+      | some e, some ks => apply d st (.strip e ks)
       | _, _ => bad d
   | ["clone", e, f] => match entOf e, entOf f with
       | some e, some f => apply d st (.clone e f)
@@ -143,10 +165,12 @@ def step (d : DSt) (ts : List String) : DSt × String :=
   | ["mode", "old"] => ({ d with old := true }, "ok")
   | ["mode", "fixed"] => ({ d with old := false }, "ok")
   -- `load <map> <kinds> [<constructor> [node|rel]]`: every constructor yields the same untracked state
-  | "load" :: m :: ks :: _ => match parseMap m, parseKinds ks false with
+  | "load" :: m :: ks :: rest => match parseMap m, parseKinds ks false with
       | some m, some ks =>
         let st := St.init { store := m, kinds := allSome ks }
-        ({ d with st := some st }, withDump st "ok")
+        let entity := rest.getD 1 "node"
+        let hs := HSt.init (allSome ks) (entity == "shared") (entity == "prep")
+        ({ d with st := some st, hs := hs }, withDump st hs "ok")
       | _, _ => bad d
   | _ => match d.st with
       | some st => stepLoaded d st ts
